@@ -550,19 +550,21 @@ def check_swap_consistency(new_out_ops2, new_out_ops3, out_ops3_expanded):
         new_out_ops3_expanded.append(expand_out_op_sum_list(new_out_ops2, out_op_sum_list))
     # item ordering: out_ops1, site1, site2, factor. (site indices are before swapping)
     # put the float-point factor to the last position for robust sorting
+    # terms that cancel leave rounding errors relative to the largest contribution, not to the largest remaining term
+    max_v = max(abs(op.factor) for l in new_out_ops3_expanded + out_ops3_expanded for op in l)
     swapped_new_out_ops3_expanded: List[List[Tuple]] = []
     for out_op_sum_list in new_out_ops3_expanded:
         grouped: Dict[Tuple, float] = defaultdict(int)
         for op in out_op_sum_list:
             grouped[(op.out_ops1_idx, op.site2_op_idx, op.site1_op_idx)] += op.factor
-        swapped_new_out_ops3_expanded.append(_grouped_to_list(grouped))
+        swapped_new_out_ops3_expanded.append(_grouped_to_list(grouped, max_v))
 
     swapped_out_ops3_expanded: List[List[Tuple]] = []
     for out_op_sum_list in out_ops3_expanded:
         grouped: Dict[Tuple, float] = defaultdict(int)
         for op in out_op_sum_list:
             grouped[(op.out_ops1_idx, op.site1_op_idx, op.site2_op_idx)] += op.factor
-        swapped_out_ops3_expanded.append(_grouped_to_list(grouped))
+        swapped_out_ops3_expanded.append(_grouped_to_list(grouped, max_v))
 
     # the following check ensures that the swapping logic is correct
     for row1, row2 in zip(swapped_out_ops3_expanded, swapped_new_out_ops3_expanded):
@@ -576,9 +578,8 @@ def check_swap_consistency(new_out_ops2, new_out_ops3, out_ops3_expanded):
             np.testing.assert_allclose(op1[-1], op2[-1], rtol=1e-8, atol=1e-11)
 
 
-def _grouped_to_list(grouped: Dict[Tuple, float]) -> List[Tuple]:
+def _grouped_to_list(grouped: Dict[Tuple, float], max_v: float) -> List[Tuple]:
     res: List[Tuple] = []
-    max_v = max(np.abs(list(grouped.values())))
     for k, v in grouped.items():
         if abs(v) < abs(max_v) * 1e-10:
             continue
